@@ -7,8 +7,9 @@
    r and w are each protected; they say nothing about the lock having been RELEASED in between (read under RLock,
    unlock, write under Lock: every access locked, no data race, and every update made by others between the two
    sections is lost).  The check below accepts a pair when
-     - some mutex m guards all writes of the field, is held at r, and NO path of the graph from r to w executes an
-       unlock of m (so m is held without interruption from r to w, and by write isolation,
+     - some mutex m guards all writes of the field, is held at r, and NO path of the graph from r to w that does
+       not come back to r (where the value is read afresh) executes an unlock of m (so m is held without
+       interruption from the last read at r to w, and by write isolation,
        C17_sections_write_isolated, nobody else writes the field meanwhile), or
      - every write of the field belongs to the pair's own single-instance group (nobody else writes it at all), or
      - the field is a recorded known finding (skip).
@@ -28,31 +29,32 @@ Definition astate := (nat * bool)%type.
 Definition as_eqb (a b : astate) : bool := (fst a =? fst b)%nat && Bool.eqb (snd a) (snd b).
 Definition as_mem (a : astate) (R : list astate) : bool := existsb (as_eqb a) R.
 
-Definition next_states (m : mutex) (g : graph) (a : astate) : list astate :=
+(* coming back to r the value is read afresh: what was unlocked before does not matter any more *)
+Definition next_states (m : mutex) (g : graph) (r : nat) (a : astate) : list astate :=
   match nth_error g (fst a) with
   | None => []
-  | Some nd => map (fun s => (s, snd a || unlocks m (n_instr nd))) (n_succ nd)
+  | Some nd => map (fun s => (s, if (s =? r)%nat then false else snd a || unlocks m (n_instr nd))) (n_succ nd)
   end.
 
 (* worklist exploration (not trusted: its result is checked by `closed`) *)
-Fixpoint explore (fuel : nat) (m : mutex) (g : graph) (work R : list astate) : list astate :=
+Fixpoint explore (fuel : nat) (m : mutex) (g : graph) (r : nat) (work R : list astate) : list astate :=
   match fuel with
   | O => R
   | S fuel' =>
       match work with
       | [] => R
       | a :: work' =>
-          if as_mem a R then explore fuel' m g work' R
-          else explore fuel' m g (next_states m g a ++ work') (a :: R)
+          if as_mem a R then explore fuel' m g r work' R
+          else explore fuel' m g r (next_states m g r a ++ work') (a :: R)
       end
   end.
 
-Definition closed (m : mutex) (g : graph) (R : list astate) : bool :=
-  forallb (fun a => forallb (fun b => as_mem b R) (next_states m g a)) R.
+Definition closed (m : mutex) (g : graph) (r : nat) (R : list astate) : bool :=
+  forallb (fun a => forallb (fun b => as_mem b R) (next_states m g r a)) R.
 
 Definition no_unlock_between (m : mutex) (g : graph) (r w : nat) : bool :=
-  let R := explore (4 * (List.length g + edges g) + 4)%nat m g [(r, false)] [] in
-  closed m g R && as_mem (r, false) R && negb (as_mem (w, true) R).
+  let R := explore (4 * (List.length g + edges g) + 4)%nat m g r [(r, false)] [] in
+  closed m g r R && as_mem (r, false) R && negb (as_mem (w, true) R).
 
 (* a walk of the graph: n, then the nodes of l, each a successor of the one before *)
 Fixpoint is_path (g : graph) (n : nat) (l : list nat) : Prop :=
@@ -66,6 +68,13 @@ Fixpoint walk (m : mutex) (g : graph) (st : bool) (n : nat) (l : list nat) : ast
   match l with
   | [] => (n, st)
   | n' :: l' => walk m g (st || unlocks_at m g n) n' l'
+  end.
+
+(* the same with the flag cleared whenever the walk comes back to r (what the exploration computes) *)
+Fixpoint walk_r (m : mutex) (g : graph) (r : nat) (st : bool) (n : nat) (l : list nat) : astate :=
+  match l with
+  | [] => (n, st)
+  | n' :: l' => walk_r m g r (if (n' =? r)%nat then false else st || unlocks_at m g n) n' l'
   end.
 
 (* the lock set of a thread that executes the nodes of the walk but the last, starting with L *)
